@@ -1,1 +1,2 @@
--- proofs root
+import CDVProofs.LineTable
+import CDVProofs.Props.C10
